@@ -11,10 +11,10 @@ TITLE = "extending needs a matching calendar chain and preserves the signature"
 
 
 def run(prog, chk):
-    extend_request_table(prog, chk)
-    replace_table(prog, chk)
-    right_link_table(prog, chk)
-    publication_record_copy_table(prog, chk)
+    chk.defer(extend_request_table, prog, chk)
+    chk.defer(replace_table, prog, chk)
+    chk.defer(right_link_table, prog, chk)
+    chk.defer(publication_record_copy_table, prog, chk)
     chk.explanation = (
         "(R6) KSI_ExtendResp_verifyWithRequest is evaluated abstractly for every combination of reply status {absent, 0, non-zero} x "
         "request-id equality x requested publication time {absent, equal, different} x aggregation-time equality x shape-time "
@@ -402,6 +402,8 @@ def publication_record_copy_table(prog, chk):
                 while isinstance(a0, dict) and a0.get("k") in ("cast", "paren"):
                     a0 = strip(a0["e"])
                 key = I.canon(p, lvalue_key(a0["e"], I.fn)) if isinstance(a0, dict) and a0.get("k") == "un" else None
+                if key is None and isinstance(args[0], Ptr) and getattr(args[0], "addr", False) and lvalue_key(a0, I.fn):
+                    key = I.canon(p, "*" + lvalue_key(a0, I.fn))      # the out-pointer is a pointer parameter of an inlined helper
                 if key is None:
                     return TOP
                 nm = "NEWLIST%d" % len(made)
@@ -421,7 +423,10 @@ def publication_record_copy_table(prog, chk):
             inputs = {rp: Ptr("REC"), cp: Ptr("OUT"), "REC->ctx": Ptr("ctx"), "REC->publicationRef": Ptr("REFS"),
                       "REC->repositoryUriList": 0 if nuri is None else Ptr("URIS"), "REC->publishedData": Ptr("PD"),
                       "PD->imprint": Ptr("IMPRINT"), "PD->time": Ptr("TIME"), "PD->ctx": Ptr("ctx")}
-            I = Interp(fn, inputs=inputs, call_model=succeed_model(prog, ov), on_unknown="stop", prog=prog, loop_bound=6)
+            from ksirules.interp import inline_model, unit_helpers
+            hs = unit_helpers(prog, fn)
+            I = Interp(fn, inputs=inputs, call_model=inline_model(prog, hs, fallback=succeed_model(prog, ov)) if hs else succeed_model(prog, ov),
+                       on_unknown="stop", prog=prog, loop_bound=6)
             paths = I.run()
             chk.paths += len(paths)
             inst = "PublicationRecord_clone[%d reference(s), %s]" % (nref, "no URI list" if nuri is None else "%d repository URI(s)" % nuri)
